@@ -29,8 +29,8 @@ ANCHOR_FILES = ["src/ropt/ensemble_evaluator/_ensemble_evaluator.py", "src/ropt/
 RULE = ("case = one configuration; non-trivial if the run made at least one gradient (perturbation) request or is a population run; distinct key = case index; "
         "monitor_counters: traces compared, evaluator calls hashed")
 ASSUMPTIONS = ["differential_evolution is only required to be reproducible when given an explicit 'seed' option (as the statement says)"]
-REQUIRED = {"quick": {"trace_pairs_compared": 295, "evaluator_calls_hashed": 2515, "foreign_runs_interleaved": 144, "seed_sensitivity_checked": 30, "fresh_process_runs": 6, "same_step_reruns": 200, "fresh_process_runs_with_several_samplers": 120, "runs_with_a_foreign_run_inside": 70, "first_drawing_sampler_without_variables": 5, "__nontrivial__": 63},
-            "thorough": {"trace_pairs_compared": 6075, "evaluator_calls_hashed": 57264, "foreign_runs_interleaved": 3000, "seed_sensitivity_checked": 700, "fresh_process_runs": 75, "same_step_reruns": 4000, "fresh_process_runs_with_several_samplers": 700, "runs_with_a_foreign_run_inside": 1400, "__nontrivial__": 1245}}
+REQUIRED = {"quick": {"trace_pairs_compared": 295, "evaluator_calls_hashed": 2515, "foreign_runs_interleaved": 144, "seed_sensitivity_checked": 30, "fresh_process_runs": 6, "same_step_reruns": 200, "generator_object_seed_reruns": 30, "fresh_process_runs_with_several_samplers": 120, "runs_with_a_foreign_run_inside": 70, "first_drawing_sampler_without_variables": 5, "__nontrivial__": 63},
+            "thorough": {"trace_pairs_compared": 6075, "evaluator_calls_hashed": 57264, "foreign_runs_interleaved": 3000, "seed_sensitivity_checked": 700, "fresh_process_runs": 75, "same_step_reruns": 4000, "generator_object_seed_reruns": 600, "fresh_process_runs_with_several_samplers": 700, "runs_with_a_foreign_run_inside": 1400, "__nontrivial__": 1245}}
 N = {"quick": 120, "thorough": 2500}
 SAMPLERS = ["norm", "uniform", "truncnorm", "sobol", "halton", "lhs"]
 
@@ -103,7 +103,7 @@ def _hash_arrays(h, arrs):
             h.update(str(a.dtype).encode() + str(a.shape).encode() + a.tobytes())
 
 
-def run_trace(spec, *, reseed=False, pm=None, ctx_holder=None, repeat=None, interleave=None):
+def run_trace(spec, *, reseed=False, pm=None, ctx_holder=None, repeat=None, interleave=None, config=None):
     """Execute one optimizer step; return (digest, n_calls, perturbed rows digest, had_perturbations).
 
     repeat=k: the same step object of one plan is run k times with one validated configuration object (a restart loop);
@@ -144,7 +144,7 @@ def run_trace(spec, *, reseed=False, pm=None, ctx_holder=None, repeat=None, inte
     import warnings  # noqa: PLC0415
 
     if repeat:
-        cfg = ens.make_config(spec)
+        cfg = config if config is not None else ens.make_config(spec)
         out = []
         for _ in range(repeat):
             h = hashlib.sha256()
@@ -235,6 +235,20 @@ def run_case(case, obs):
         if Fk[0] != A[0]:
             obs.violation("trace_depends_on_earlier_runs_of_the_same_step", run=k, samplers=spec["samplers"], calls=[A[1], Fk[1]])
             return
+    # H: the seed of a population method given as a generator object (a documented SciPy seed type): what the user hands over is
+    # not consumed, a second run of the same configuration repeats the first
+    if pop:
+        from ropt.config.enopt import EnOptConfig  # noqa: PLC0415
+
+        for make in (lambda: np.random.default_rng(4242), lambda: np.random.RandomState(4242)):  # noqa: NPY002
+            cfgd = ens.make_config_dict(spec)
+            cfgd["optimizer"] = dict(cfgd["optimizer"], options=dict(cfgd["optimizer"]["options"], seed=make()))
+            first, second = run_trace(spec, repeat=2, config=EnOptConfig.model_validate(cfgd))
+            obs.count("trace_pairs_compared")
+            obs.count("generator_object_seed_reruns")
+            if first[0] != second[0]:
+                obs.violation("generator_object_given_as_seed_is_consumed", kind=type(make()).__name__, calls=[first[1], second[1]])
+                return
     # seed sensitivity (also after the runs above)
     if A[3]:
         other = json.loads(json.dumps(spec))
